@@ -41,7 +41,9 @@ LEVEL_TEXT = (
 def strategy_(draw):
     kind = draw(st.sampled_from(["reservoir", "reservoir", "comparison", "transform"]))
     if kind == "reservoir":
-        c = draw(flowcase.sim_case(nx_max=40, max_steps=120, schedules=False, with_library=False, time_kinds=("uniform", "quadratic", "geometric", "random")))
+        # half of the table-based reservoirs are simulated with a frac-face schedule (constant, falling or arbitrary:
+        # with a rising frac-face pressure the profile's minimum is not at the fracture any more)
+        c = draw(flowcase.sim_case(nx_max=40, max_steps=120, schedules=draw(st.booleans()), with_library=False, time_kinds=("uniform", "quadratic", "geometric", "random")))
         c.update({"kind": kind, "every_frac": draw(st.floats(0.0, 1.1)), "rescale": draw(st.booleans()), "change_ticks": draw(st.booleans()), "own_axes": draw(st.booleans()), "pre_state": draw(st.sampled_from(["fresh", "fresh", "after-density-recovery", "after-interpolator"]))})
         return c
     if kind == "transform":
@@ -80,9 +82,9 @@ def _same(a, b):
     return a.shape == b.shape and np.array_equal(a, b, equal_nan=True)
 
 
-def _close(a, b, rtol=1e-13):
+def _close(a, b, rtol=1e-13, atol=0.0):
     """Derived quantities (node positions, rescaled profiles, time over tau): equal up to a few ulp, however formed."""
-    return a.shape == b.shape and np.allclose(a, b, rtol=rtol, atol=0.0, equal_nan=True)
+    return a.shape == b.shape and np.allclose(a, b, rtol=rtol, atol=atol, equal_nan=True)
 
 
 def check_case(case) -> Result:
@@ -168,7 +170,9 @@ def check_case(case) -> Result:
                         break
                     with np.errstate(all="ignore"):
                         want = (m[i] - m[i, 0]) / (pinit - m[i, 0]) if case["rescale"] else m[i]
-                    if not (_close(y, want, 1e-12) if case["rescale"] else _same(y, want)):
+                    # rescaled values are differences of nearly equal numbers divided by the drawdown: rounding of
+                    # either is ~eps in absolute terms on the [0, 1] scale
+                    if not (_close(y, want, 1e-12, 1e-12) if case["rescale"] else _same(y, want)):
                         k = int(np.nanargmax(np.abs(y - want))) if np.any(np.isfinite(y - want)) else 0
                         res.bad("C20/profile-carries-simulated-data", f"profile {i} (rescale={case['rescale']}): y[{k}]={y[k]!r}, simulated {want[k]!r}")
                         break
